@@ -328,7 +328,7 @@ def cmp_fuzz(case, i, m):
 
 
 def fuzz_stream(ctx):
-    n = 700 if ctx.quick() else 20000
+    n = 900 if ctx.quick() else 20000
     lines = gen_cases("fuzz", n, ctx.seed * 1000 + 17)
     impl = run_impl(lines)
     kinds = {}
@@ -563,15 +563,7 @@ C13_MESSAGE_THEOREMS = ["Acv.C13.parse_lengths", "Acv.C13.message_render", "Acv.
 def cmp_c13(case, i, m):
     if "error" in m:
         return ("~model-error", "model driver rejected the case: " + m["error"])
-    if i.get("quoted") != m.get("quoted"):
-        bad = [k for k in m["quoted"] if i["quoted"].get(k) != m["quoted"][k]]
-        return ("~quote", f"RegoString({bad[0]!r}) = {i['quoted'].get(bad[0])!r} but the proved quoting function gives {m['quoted'][bad[0]]!r}")
-    if not i.get("engineLexesBack"):
-        return ("engine-lex", "the engine's own lexer does not read a quoted literal back to the original string")
-    if i.get("msgFormat") != m.get("msgFormat") or i.get("msgVars") != m.get("msgVars"):
-        return ("~message-parse", f"ParseMessageExpression({case['message']!r}) = ({i.get('msgFormat')!r}, {i.get('msgVars')}) but the model gives ({m.get('msgFormat')!r}, {m.get('msgVars')})")
-    if m["message"] != m["messageViaPolicy"]:
-        return ("~model-self", "message model: policy-side rendering differs from the specification (message_render contradicted?)")
+    # the property itself, on the real report, first
     if i.get("outcome") != "ok":
         return ("compile", f"profile name {case['name']!r}, validation {case['vname']!r}, message {case['message']!r}, list {case['listvals']}: {i.get('outcome')}: {str(i.get('err'))[:200]}")
     if i["profileName"] != m["profileName"]:
@@ -583,6 +575,16 @@ def cmp_c13(case, i, m):
         return ("shape", f"sourceShapeName {rs[0]['shape']!r} instead of {m['shape']!r}")
     if rs[0]["message"] != m["message"]:
         return ("message", f"message template {case['message']!r} rendered as {rs[0]['message']!r}, expected {m['message']!r}")
+    # then the unit-level ties of the model
+    if i.get("quoted") != m.get("quoted"):
+        bad = [k for k in m["quoted"] if i["quoted"].get(k) != m["quoted"][k]]
+        return ("~quote", f"RegoString({bad[0]!r}) = {i['quoted'].get(bad[0])!r} but the proved quoting function gives {m['quoted'][bad[0]]!r}")
+    if not i.get("engineLexesBack"):
+        return ("~engine-lex", "the engine's own lexer does not read a quoted literal back to the original string")
+    if i.get("msgFormat") != m.get("msgFormat") or i.get("msgVars") != m.get("msgVars"):
+        return ("~message-parse", f"ParseMessageExpression({case['message']!r}) = ({i.get('msgFormat')!r}, {i.get('msgVars')}) but the model gives ({m.get('msgFormat')!r}, {m.get('msgVars')})")
+    if m["message"] != m["messageViaPolicy"]:
+        return ("~model-self", "message model: policy-side rendering differs from the specification (message_render contradicted?)")
     return None
 
 
